@@ -270,6 +270,9 @@ def _run(plugin, pid, tier, seed, work, violations, known_lines, coverage, repla
                      "samples": [plugin.sample(cases[i], results[i][0]) for i in idxmap[:3]],
                      "distribution": plugin.distribution(cases) if getattr(plugin, "distribution", None) else {}})
     seen_sig = set()
+    # cases the harness never got to (it stops after three hangs) say nothing by themselves
+    if any("TIMEOUT" in e for _, e in errs):
+        errs = [(i, e) for i, e in errs if "no result" not in e]
     for i, e in errs[:5]:
         sig = plugin.signature(cases[i], None, 3, e) if getattr(plugin, "signature", None) else "harness-error"
         if sig in kf:
